@@ -48,14 +48,40 @@ type poolCfg struct {
 	MarginN int64  `json:"margin_num"`
 	MarginD int64  `json:"margin_den"`
 	Cost    uint64 `json:"cost"`
-	Deleg   int    `json:"delegation"` // 0 no delegator map, 1 one registered delegator, 2 owner (1/3) + delegator, 3 two delegators, second not registered
-	Blocks  uint32 `json:"blocks"`
+	// 0 no delegator map, 1 one registered delegator, 3 two delegators (no owner), second not registered,
+	// 10+b: one owner + one delegator, b = 1*(owner holds 2/3 instead of 1/3) + 2*(owner registered) + 4*(delegator registered);
+	// 2 = legacy alias of 16 (owner 1/3, both registered)
+	Deleg  int    `json:"delegation"`
+	Blocks uint32 `json:"blocks"`
 }
 
-var delegNames = []string{"none", "single", "owner+delegator", "registered+unregistered"}
+func delegName(d int) string {
+	switch d {
+	case 0:
+		return "none"
+	case 1:
+		return "single"
+	case 3:
+		return "registered+unregistered"
+	case 2:
+		d = 16
+	}
+	b := d - 10
+	share, oreg, dreg := "1/3", "unregistered", "unregistered"
+	if b&1 != 0 {
+		share = "2/3"
+	}
+	if b&2 != 0 {
+		oreg = "registered"
+	}
+	if b&4 != 0 {
+		dreg = "registered"
+	}
+	return fmt.Sprintf("owner(%s,%s)+delegator(%s)", share, oreg, dreg)
+}
 
 func (p poolCfg) String() string {
-	return fmt.Sprintf("{stake=%d margin=%d/%d cost=%d deleg=%s blocks=%d}", p.Stake, p.MarginN, p.MarginD, p.Cost, delegNames[p.Deleg], p.Blocks)
+	return fmt.Sprintf("{stake=%d margin=%d/%d cost=%d deleg=%s blocks=%d}", p.Stake, p.MarginN, p.MarginD, p.Cost, delegName(p.Deleg), p.Blocks)
 }
 
 type rcase struct {
@@ -102,11 +128,22 @@ func buildSnapshot(c *rcase) (common.AdaPots, common.RewardSnapshot, common.Rewa
 		case 1:
 			snap.DelegatorStake[id] = map[common.AddrKeyHash]uint64{addrKey(p, 0): pc.Stake}
 			snap.StakeRegistrations[addrKey(p, 0)] = true
-		case 2:
+		case 2, 10, 11, 12, 13, 14, 15, 16, 17:
+			b := pc.Deleg - 10
+			if pc.Deleg == 2 {
+				b = 6
+			}
 			own := pc.Stake / 3
+			if b&1 != 0 {
+				own = pc.Stake - pc.Stake/3
+			}
 			snap.DelegatorStake[id] = map[common.AddrKeyHash]uint64{addrKey(p, 0): own, addrKey(p, 1): pc.Stake - own}
-			snap.StakeRegistrations[addrKey(p, 0)] = true
-			snap.StakeRegistrations[addrKey(p, 1)] = true
+			if b&2 != 0 {
+				snap.StakeRegistrations[addrKey(p, 0)] = true
+			}
+			if b&4 != 0 {
+				snap.StakeRegistrations[addrKey(p, 1)] = true
+			}
 			cert.PoolOwners = []common.AddrKeyHash{addrKey(p, 0)}
 		case 3:
 			half := pc.Stake / 2
@@ -435,7 +472,6 @@ func main() {
 	stakes := []uint64{0, 1_000_000, 15_000_000_000_000_000}
 	margins := [][2]int64{{0, 1}, {1, 2}, {1, 1}}
 	costs := []uint64{0, 340_000_000}
-	delegs := []int{2, 3}
 	blocks := []uint32{0, 1}
 	pots := []uint64{7, 1_000_000_000, 10_000_000_000_000, two53 + 1, two53 + 3, 45_000_000_000_000_000}
 	if c.Thorough() {
@@ -456,14 +492,25 @@ func main() {
 		}
 		return out
 	}
-	alpha := mk(stakes, margins, costs, delegs)
-	// snapshots of one or two pools use a wider alphabet
-	alphaSmall := alpha
-	if !c.Thorough() {
-		alpha = mk(stakes, [][2]int64{{0, 1}, {1, 1}}, costs, delegs)
-	}
+	// delegation / registration patterns: the full owner x delegator registration grid with the
+	// owner's stake smaller / larger than the delegator's for one pool, a colliding selection for
+	// two and three pools
+	allOwner := []int{10, 11, 12, 13, 14, 15, 16, 17}
+	delegs1 := append([]int{1, 3}, allOwner...)
+	delegs2 := []int{16, 15, 3, 11}
+	delegs3 := []int{16, 15}
+	stakes1 := stakes
+	margins3 := [][2]int64{{0, 1}, {1, 1}}
 	if c.Thorough() {
-		alphaSmall = mk([]uint64{0, 1, 1_000_000, 15_000_000_000_000_000}, margins, costs, []int{0, 1, 2, 3})
+		delegs1 = append([]int{0, 1, 3}, allOwner...)
+		delegs2 = delegs1
+		stakes1 = []uint64{0, 1, 1_000_000, 15_000_000_000_000_000}
+		margins3 = margins
+	}
+	alphaN := map[int][]poolCfg{
+		1: mk(stakes1, margins, costs, delegs1),
+		2: mk(stakes, margins, costs, delegs2),
+		3: mk(stakes, margins3, costs, delegs3),
 	}
 	// reduced alphabet for independent per-loop orders
 	alphaR := mk(stakes, [][2]int64{{0, 1}, {1, 1}}, []uint64{0}, []int{1})
@@ -480,10 +527,7 @@ func main() {
 	var ord atomic.Int64
 	for n := 1; n <= 3; n++ {
 		var ws []work
-		alpha := alpha
-		if n < 3 {
-			alpha = alphaSmall
-		}
+		alpha := alphaN[n]
 		multisets(len(alpha), n, func(idx []int) { ws = append(ws, work{append([]int{}, idx...), n}) })
 		pm := perms(n)
 		base := ord.Load()
@@ -561,8 +605,9 @@ func main() {
 	}
 	c.Set("joint_order_cases", jointEvals)
 	c.Set("independent_order_cases", col.evals.Load()-jointEvals)
-	c.Set("pool_alphabet_3_pools", len(alpha))
-	c.Set("pool_alphabet_1_2_pools", len(alphaSmall))
+	c.Set("pool_alphabet_1_pool", len(alphaN[1]))
+	c.Set("pool_alphabet_2_pools", len(alphaN[2]))
+	c.Set("pool_alphabet_3_pools", len(alphaN[3]))
 	c.Set("pool_alphabet_independent_orders_2_pools", len(alphaR))
 	c.Set("pool_alphabet_independent_orders_3_pools", len(alphaR3))
 	c.Set("pots", pots)
